@@ -121,7 +121,7 @@ pub fn negative<const IS64: bool>() {
     let exp: i32 = kani::any();
     kani::assume(mant >> 63 == 1);
     let (p1, bias, inf, sh) = if IS64 { (52u32, 1075i32, 0x7FFu64, 11i32) } else { (23u32, 150i32, 0xFFu64, 40i32) };
-    kani::assume(-63 <= exp && exp <= 4000);
+    kani::assume(-64 <= exp && exp <= 4000); // -64: round() is entered with shift 65 (clamped to 64): b = 0, result 0 or 1
     kani::assume(exp + sh < inf as i32 - 1);
     let ord: u8 = kani::any();
     kani::assume(ord < 3);
@@ -198,6 +198,25 @@ pub fn sci_exp() {
         d += 1;
     }
     assert!(s == e + d);
+}
+
+/// scientific_exponent is a pure function: a second call is not influenced by the first (C16: no memo / static state)
+pub fn sci_exp_twice() {
+    let m1: u64 = kani::any();
+    let e1: i32 = kani::any();
+    let m2: u64 = kani::any();
+    let e2: i32 = kani::any();
+    kani::assume(m1 != 0 && m2 != 0);
+    kani::assume(-1_000_000 < e1 && e1 < 1_000_000 && -1_000_000 < e2 && e2 < 1_000_000);
+    let _ = scientific_exponent(&Number { mantissa: m1, exponent: e1, many_digits: false });
+    let s = scientific_exponent(&Number { mantissa: m2, exponent: e2, many_digits: false });
+    let mut d = 0i32;
+    let mut p: u128 = 10;
+    while p <= m2 as u128 {
+        p *= 10;
+        d += 1;
+    }
+    assert!(s == e2 + d);
 }
 
 // ---- slow(): exponent arithmetic and dispatch -------------------------------------------------------
